@@ -28,4 +28,13 @@ def main(argv=None):
 
 
 if __name__ == '__main__':
-    sys.exit(main())
+    try:
+        rc = main()
+    except SystemExit:
+        raise
+    except BaseException:       # the machinery itself failed: never exit 0, never look like a VIOLATION
+        import traceback
+        traceback.print_exc()
+        print('HARNESS-ERROR uncaught exception in the checker (see traceback)')
+        rc = 2
+    sys.exit(rc)
